@@ -93,6 +93,9 @@ func (c *RawEVMConfig) Validate() error {
 	if c.BlockInterval < 1 {
 		return fmt.Errorf("blockInterval has to be >=1")
 	}
+	if err := chain.ValidateSeconds("blockRetryInterval", c.BlockRetryInterval); err != nil {
+		return err
+	}
 	return nil
 }
 
